@@ -951,6 +951,62 @@ func c14(c *Ctx) {
 		}
 	})
 
+	c.Rule("C14.R8", "every encoded series owns its slices: no slice stored in a message field is built in a buffer that is re-used (x[:0]) across series", 1, func(r *Rule) {
+		if enc == nil {
+			r.Unresolved("translateToProtobufV2")
+			return
+		}
+		n := 0
+		for _, g := range WithAnon(enc) {
+			for _, st := range storesIn(g) {
+				t, f, _, ok := fieldRef(st.Addr)
+				if !ok || !strings.HasPrefix(t, "Raw") {
+					continue
+				}
+				if _, isSlice := st.Val.Type().Underlying().(*types.Slice); !isSlice {
+					continue
+				}
+				n++
+				reused := ""
+				seen := map[ssa.Value]bool{}
+				var walk func(v ssa.Value, d int)
+				walk = func(v ssa.Value, d int) {
+					if v == nil || d > 10 || seen[v] {
+						return
+					}
+					seen[v] = true
+					switch x := v.(type) {
+					case *ssa.Phi:
+						for _, e := range x.Edges {
+							walk(e, d+1)
+						}
+					case *ssa.Slice:
+						if hi, isC := constInt(x.High); isC && hi == 0 {
+							reused = "re-sliced buffer " + pathOf(x.X) + "[:0] at " + w.Pos(x.Pos())
+							return
+						}
+						walk(x.X, d+1)
+					case *ssa.Call:
+						if isCall(x, "builtin append") || strings.HasPrefix(calleeName(x), "slices.AppendSeq") || strings.HasPrefix(calleeName(x), "slices.Grow") {
+							walk(x.Call.Args[0], d+1)
+						}
+					case *ssa.UnOp:
+						if al, ok := x.X.(*ssa.Alloc); ok {
+							for _, ref := range referrers(al) {
+								if s2, ok := ref.(*ssa.Store); ok && s2.Addr == ssa.Value(al) {
+									walk(s2.Val, d+1)
+								}
+							}
+						}
+					}
+				}
+				walk(st.Val, 0)
+				r.Check(FuncName(g)+":"+t+"."+f+":fresh-slice", reused == "", st.Pos(), t+"."+f+" is not built in a buffer shared with other series"+map[bool]string{true: "", false: ": " + reused}[reused == ""])
+			}
+		}
+		r.Check("slice-fields-found", n >= 1, enc.Pos(), fmt.Sprintf("%d slice-typed message fields written by the encoder", n))
+	})
+
 	c.Rule("C14.R7", "what is encoded once is what every delivery attempt sends: the forwarder's per-attempt closure builds a fresh reader over the encoded body and assigns no captured variable", 2, func(r *Rule) {
 		n := 0
 		for _, g := range attemptClosures(w) {
